@@ -16,7 +16,7 @@ RULE = (
     "data flow of the iterator value: order-insensitive when every terminal consumer is count/sum/any/all/min/max, a "
     "collect()/extend() into a HashMap/HashSet/BTreeMap/BTreeSet, or a collect() into a Vec on which a slice sort is "
     "called before any other use; otherwise order-sensitive. R1 inside the frozen list of order-defining functions "
-    "(they build the processing order, the filelist and the lockfile text) an order-sensitive site is a violation "
+    "(they build the processing order, the filelist, the lock names and the lockfile text) an order-sensitive site is a violation "
     "unless the triage table names a sort call that separates it from the named sink on every CFG path (checked). "
     "R2 veryl_path::gather_files_with_extension: the WalkDir whose entries are pushed to the result is built with "
     "sort_by_file_name. R3 elsewhere on the build path an order-sensitive site must be in the triage table (one reason "
@@ -31,6 +31,7 @@ ORDER_DEFINING = {
     "veryl_metadata::lockfile::Lockfile::paths": "dependency sources appended to the processing order",
     "veryl_metadata::lockfile::Lockfile::projects": "sorted view of the lock table used by paths()",
     "veryl_metadata::lockfile::Lockfile::save": "lockfile text",
+    "veryl_metadata::lockfile::Lockfile::gen_locks": "lock names (numeric suffixes of same-named projects) and per-lock dependency lists",
     "veryl_metadata::metadata::Metadata::paths": "file processing order of the root project",
     "veryl::cmd_build::CmdBuild::sort_filelist": "filelist order",
     "veryl::cmd_build::CmdBuild::gen_filelist": "filelist text",
@@ -54,9 +55,6 @@ TRIAGE = {
         ("undecided", "dependency component lists are returned in table order and registered first-wins by name "
                       "(collect_component_manifests); names are project-qualified so collisions across projects cannot occur, "
                       "but this was not demonstrated"),
-    ("veryl_metadata::lockfile::Lockfile::gen_locks", "into_iter", "dependencies"):
-        ("undecided", "C31 scope (candidate F5b in DESIGN.md): breadth-first walk of metadata.dependencies decides which of two "
-                      "same-named transitive dependencies gets the numeric suffix; by reading only, not demonstrated"),
     ("veryl_metadata::lockfile::Lockfile::gen_locks", "into_iter", "properties"):
         ("benign", "each override is applied to its own key of a BTreeMap; the first unknown/incompatible property aborts with an "
                    "error either way (only which one is named could differ)"),
@@ -316,7 +314,7 @@ def run(world, tier, info, only=None):
             ck.ob("R1", "site:" + key, ok, st,
                   ("order-sensitive (%s) but %s: every path to %s passes a sort" % (why, reason, sink_rx)) if ok else
                   "order-sensitive (%s) and a path reaches the sink %s without passing %s" % (why, sink_rx, sort_rx))
-        elif tri and tri[0] == "benign" and owner not in ORDER_DEFINING:
+        elif tri and tri[0] == "benign":
             counts["triaged"] += 1
             ck.ob("R3", "site:" + key, True, st, "order-sensitive in form (%s); triaged benign: %s" % (why, tri[1]))
         elif owner in ORDER_DEFINING:
